@@ -530,13 +530,16 @@ def parseCsf (d : Bytes) : PyRes (Nat × List CsfCmd) :=
       | .error e => .error e
       | .ok cc => .ok (ver, cc)
 
+/-- the test `get_app_offset` applies to the second word `rv` at a probed offset: non-zero, inside
+    `range(entry - 0x400, entry + len(data))`, odd (Thumb) -/
+def vectorOk (entry len rv : Nat) : Bool :=
+  rv != 0 && decide ((entry : Int) - HabConsts.resetVectorWindow ≤ rv) && decide (rv < entry + len) && rv % 2 == 1
+
 /-- `AppHabSegment.parse.get_app_offset`: first known offset whose second word looks like a Thumb reset vector -/
 def findAppOffset (d : Bytes) (entry : Nat) : List Nat → Option Nat
   | [] => none
   | off :: rest =>
-    let rv := leDec (slice d (off + 4) 4)
-    if rv ≠ 0 ∧ (entry : Int) - HabConsts.resetVectorWindow ≤ rv ∧ rv < entry + d.length ∧ rv % 2 = 1
-    then some off else findAppOffset d entry rest
+    if vectorOk entry d.length (leDec (slice d (off + 4) 4)) then some off else findAppOffset d entry rest
 
 /-- `XMCDHeader.parse` + block size: `some bytes` when an XMCD block is recognised at 0x40; the segment is
     re-exported from the parsed fields (`SegXMCD(header, data).export()`) -/
@@ -559,16 +562,31 @@ def parseDcdSeg (d : Bytes) (ivt : Ivt) : PyRes (List Seg) :=
     | .error e => .error e
   else .ok []
 
-/-- `CsfHabSegment.parse` + `HabContainer._get_flags`: present iff the IVT has a CSF pointer -/
-def parseCsfSeg (d : Bytes) (ivt : Ivt) : PyRes (List Seg × Nat) :=
+def Cmd.blocks : Cmd → List (Nat × Nat)
+  | .autDat _ _ _ _ _ _ bl => bl
+  | _ => []
+
+/-- the application block `AppHabSegment.parse` takes from a parsed CSF: the last block of the Decrypt Data command
+    (third Authenticate Data command) if it lists blocks, else of the Authenticate Data command (the second one)
+    — `csf.get_decrypt_data_cmd() or csf.get_authenticate_data_cmd()`, a command without blocks being falsy -/
+def csfAppBlock (cc : List CsfCmd) : Option (Nat × Nat) :=
+  let b1 : Option (Nat × Nat) := ((getAut 1 cc).map (fun c => c.cmd.blocks)).bind List.getLast?
+  match (getAut 2 cc).map (fun c => c.cmd.blocks) with
+  | some bl => if bl.isEmpty then b1 else bl.getLast?
+  | none => b1
+
+/-- `CsfHabSegment.parse` + `HabContainer._get_flags`: present iff the IVT has a CSF pointer; also the application
+    block the CSF lists -/
+def parseCsfSeg (d : Bytes) (ivt : Ivt) : PyRes (List Seg × Nat × Option (Nat × Nat)) :=
   if ivt.csf ≠ 0 then
     match parseCsf (slice d (ivt.csf - ivt.self) HabConsts.csfSize) with
     | .ok (ver, cc) =>
-      .ok ([⟨"csf", ivt.csf - ivt.self, csfBytes ver cc⟩], if (getAut 2 cc).isSome then 0xC else 0x8)
+      .ok ([⟨"csf", ivt.csf - ivt.self, csfBytes ver cc⟩], (if (getAut 2 cc).isSome then 0xC else 0x8), csfAppBlock cc)
     | .error e => .error e
-  else .ok ([], 0)
+  else .ok ([], 0, none)
 
-/-- `AppHabSegment.parse` once the offset is known: up to the CSF, or to the end of the data -/
+/-- `AppHabSegment.parse` for an unsigned image once the offset is known: up to the end of the data
+    (or up to the CSF when the IVT has a CSF pointer but the CSF lists no block) -/
 def appSeg (d : Bytes) (ivt : Ivt) (aoff : Nat) : Seg :=
   ⟨"app", aoff, (d.drop aoff).take ((if ivt.csf > 0 then ivt.csf - ivt.self else d.length) - aoff)⟩
 
@@ -592,25 +610,30 @@ def parse (d : Bytes) : PyRes Parsed :=
         | .ok xm =>
           match parseCsfSeg d ivt with
           | .error e => .error e
-          | .ok (csfS, flags) =>
-            match findAppOffset d ivt.entry HabConsts.knownAppOffsets with
-            | none => .error .spsdk
-            | some aoff =>
+          | .ok (csfS, flags, blk) =>
+            let front : List Seg := [⟨"ivt", 0, ivt.encode⟩, ⟨"bdt", ivt.bdt - ivt.self, bdt.encode⟩] ++ dcdS ++ xmcdSegs xm ++ csfS
+            match blk with
+            | some (addr, size) =>
+              -- signed / encrypted image: the application is the block the CSF lists
               .ok { flags := flags, start := bdt.start, ivtOff := (ivt.self : Int) - bdt.start,
-                    segs := [⟨"ivt", 0, ivt.encode⟩, ⟨"bdt", ivt.bdt - ivt.self, bdt.encode⟩] ++ dcdS ++ xmcdSegs xm ++
-                            csfS ++ [appSeg d ivt aoff] }
+                    segs := front ++ [⟨"app", addr - ivt.self, slice d (addr - ivt.self) size⟩] }
+            | none =>
+              match findAppOffset d ivt.entry HabConsts.knownAppOffsets with
+              | none => .error .spsdk
+              | some aoff =>
+                .ok { flags := flags, start := bdt.start, ivtOff := (ivt.self : Int) - bdt.start,
+                      segs := front ++ [appSeg d ivt aoff] }
 
 /-! ## what `parse (export c)` has to return -/
 def expectedFlags (c : Cfg) : Nat :=
   if !c.hasCsf then 0 else if isEnc c.flags then 0xC else 0x8
 
 def expectedSegs (c : Cfg) (b : Built) : List Seg :=
-  let img := exportImage c b
   [⟨"ivt", 0, c.ivt.encode⟩, ⟨"bdt", bdtSegOffN, c.bdt.encode⟩] ++
   (match c.dcd with | some d => [⟨"dcd", dcdSegOffN, d⟩] | none => []) ++
   xmcdSegs c.xmcd ++
   (if c.hasCsf then [⟨"csf", c.csfOff, csfBytes c.version b.cmds⟩] else []) ++
-  [⟨"app", c.appOff, if c.hasCsf then slice img c.appOff (c.csfOff - c.appOff) else b.app⟩]
+  [⟨"app", c.appOff, b.app⟩]
 
 def expectedParse (c : Cfg) (b : Built) : Parsed :=
   { flags := expectedFlags c, start := c.start, ivtOff := c.ivtOff, segs := expectedSegs c b }
